@@ -58,6 +58,18 @@ claims = {
  "C18": ("Decides ordering clauses: stamp written only on the nil edge of buildLinker; reuse guarded by stamp+file+size; every path to buildLinker has a mismatching stamp or removes stamp first (path enumeration, const-trip loops); "
          "the shared dir is a fresh MkdirTemp per command; all writes under the cache dir are PutBytes or the linker under its lock. Decides these clauses, not the effect of a kill at any instant.",
          "path enumeration and dominance on go/ssa + filesystem-effect enumeration", "4 C18"),
+ "C08": ("Decides coverage and plumbing clauses: the reflected-type walker's component coverage against what reflect.Type can navigate (Elem x5, map Key, struct fields, func params/results, Named underlying, Alias rhs); "
+         "CopyFrom merges every pkgCache field and the seed table names reflect.TypeOf/ValueOf; coverage floors of the five SSA switches of the analysis (25 cases); the fix-point has no pruning state and its progress measure counts parameter sets; "
+         "name pairs are emitted sorted; the abi patch anchor occurs exactly once in the pinned toolchain's internal/abi/type.go and the linkname names agree. Decides these clauses, not the soundness of the taint heuristic over all flows.",
+         "component/field/case coverage extraction from go/ssa + text-level agreement with GOROOT source", "4 C08"),
+ "C13": ("Decides single-source clauses: garble map takes every name from obfuscatedObjectName and every path from obfuscatedImportPath (no hashing of its own); every transformer field the naming decision transitively reads is set by "
+         "transformerForListedPackage; build/map/reverse fill the package list through toolexecCmd -> appendListedPackages and type-check with <pkg>.ImportPath and importerForPkg(<pkg>); map skips objects only for the four documented reasons. "
+         "Decides these clauses, not equality of compile-time and go-list type information.",
+         "call-graph field-read coverage and provenance slices on go/ssa", "4 C13"),
+ "C15": ("Decides dependency clauses: the struct case of the bundled identity hasher calls only NumFields/Field/Name/Anonymous (no Tag, Pos, Pkg, field types), nothing reachable from it iterates a map or reads configuration; "
+         "all 4 hashWithStruct sites pass (fieldToStruct[o], o) with o an origin field, or a field enumerated from the same struct value; recordFieldToStruct skips instantiated structs and descends through Origin().Underlying(). "
+         "Decides these clauses, not Identical(t,t') => equal salt for every type shape.",
+         "closed-set call check on a type-switch region + operand provenance on go/ssa", "4 C15"),
 }
 
 checks = []
